@@ -13,8 +13,10 @@ def _nontrivial(recs):
 
 PROP = dict(
     specdir="p2p", engine="c19",
-    mc=[dict(module="SwarmMC", cfg="MC_Swarm.cfg"),
-        dict(module="SwarmMC", cfg="MC_Swarm_live.cfg", coverage=False),
+    # quick: ONE exhaustive run of the small instance under FairSpec (safety invariants + action property + liveness);
+    # thorough adds the same instance with -coverage (vacuity), bigger safety instances and more liveness instances
+    mc=[dict(module="SwarmMC", cfg="MC_Swarm_live.cfg", coverage=False),
+        dict(module="SwarmMC", cfg="MC_Swarm.cfg", tiers=("thorough",)),
         dict(module="SwarmMC", cfg="MC_Swarm_thorough.cfg", tiers=("thorough",), timeout=1500),
         dict(module="SwarmMC", cfg="MC_Swarm_conn2.cfg", tiers=("thorough",), coverage=False, timeout=1500),
         dict(module="SwarmMC", cfg="MC_Swarm_live_thorough.cfg", tiers=("thorough",), coverage=False, timeout=1500),
@@ -24,7 +26,8 @@ PROP = dict(
     replay_attempts=3,
     nontrivial=_nontrivial,
     rule="one trace = one REAL in-process swarm over localhost TCP: 2-5 leeching agent schedulers (real clock, real event loop, real "
-         "announce client against trackerserver.Fixture) + 1 seeder pre-populated through its torrent archive, random blob 0-64 KiB, "
+         "announce client against trackerserver.Fixture) + 1 seeder pre-populated through its torrent archive (in a quarter of the swarms an ORIGIN seeder instead: originstorage "
+         "over a CAStore, not announcing, handed out by the tracker's origin store under the completeness policy), random blob 0-64 KiB, "
          "piece length 1-16 KiB, MaxOpenConnectionsPerTorrent 1-4 per peer, pipeline limit 1-3, random join order and delays; every "
          "third swarm has a CORRUPTING peer (scheduler whose TorrentArchive is decorated to report the torrent complete and to serve "
          "a random non-empty set of pieces with a flipped byte), every third an agent that is stopped mid-transfer, every sixth both; "
